@@ -692,6 +692,8 @@ fn run_bomb(b: &BombCase, o: &mut Outcome) {
         .arg("ulimit -v 3000000; exec \"$0\"")
         .arg(&exe)
         .env("C14_BOMB", format!("{},{},{}", b.target, b.shape, b.depth))
+        .env_remove("C14_WRITE_REPLAYS")
+        .env_remove("C14_WRITE_WIRE_SEEDS")
         .stdout(std::process::Stdio::piped())
         .stderr(std::process::Stdio::piped())
         .spawn();
@@ -1032,14 +1034,30 @@ fn write_replays(dir: &str) {
         ("digit-first-alias", art(&format!("{}\0query {{ 1 : Person {{ name }} }}", m))),
         ("alias-made-of-dots", art(&format!("{}\0query {{ . : Person {{ name }} }}", m))),
         ("skip-without-first", art(&format!("{}\0query {{ Person (skip 1) {{ name }} }}", m))),
-        ("json-field-default", art("{ Person { name: String, data: Json default \"{}\" } }\0query { Person { data } }")),
+        ("json-field-default", art("{ Person { name: String, data: Json default \"{}\" } }\0query { Person { d : data->$ } }")),
         ("non-finite-float-literal", art("{ Person { w: Float nullable } }\0query { Person (w > 1.0e999) { w } }")),
         ("quote-in-string-default", art("{ Person { name: String default \"it's\" } }\0query { Person (name = \"a\") { name } }")),
         ("filter-on-system-reference", art(&format!("{}\0query {{ Person (sys_peer = null) {{ name }} }}", m))),
         ("literal-filter-then-json-filter", art(&format!("{}\0query {{ Person (age = 1, data->$.a = 2) {{ name }} }}", m))),
         ("system-column-in-sub-entity-order", art(&format!("{}\0query {{ Person {{ name friends(order_by(cdate asc)) {{ name }} }} }}", m))),
-        ("aggregate-on-binary-system-field", art(&format!("{}\0query {{ Person {{ m : max(verifying_key) }} }}", m))),
+        ("aggregate-on-binary-system-field", art(&format!("{}\0mutate {{ Person {{ name: \"a\" }} }}\0query {{ Person {{ m : max(verifying_key) }} }}", m))),
         ("reference-filter-in-aggregate-query", art(&format!("{}\0query {{ Person (pet = null) {{ c : count() }} }}", m))),
+        (
+            "filter-on-alias-of-system-field",
+            Case::Requests(ReqCase {
+                model: json_model.clone(),
+                reqs: vec![Req::Query(QueryReq {
+                    name: None,
+                    ents: vec![QEnt {
+                        alias: None,
+                        ent: 0,
+                        params: vec![QParam::Filter { target: 60000, op: 0, val: Val::Good { var: true, salt: 0 } }],
+                        fields: vec![QField::Scalar { field: 9000, alias: Some(Ident { cat: 0, ix: 60000 }) }],
+                    }],
+                })],
+                via_instance: false,
+            }),
+        ),
         ("five-required-sub-entities", Case::Bomb(BombCase { target: 1, shape: 0, depth: 5 })),
         ("twelve-nullable-sub-entities", Case::Bomb(BombCase { target: 1, shape: 3, depth: 10 })),
         ("thousand-filters", Case::Bomb(BombCase { target: 1, shape: 1, depth: 1000 })),
